@@ -1,6 +1,459 @@
-//! C15 — not built yet.
-use crate::core::Ctx;
+//! C15 — all call forms of an operation give the same answer (or all panic).
+//! The form table is GENERATED from the rustdoc JSON of the working tree (tools/gen_forms.py →
+//! gen_forms.rs): one closure per `impl <ops trait><Rhs> for Lhs` of dashu-int/-float/-ratio
+//! (owned/borrowed operands, assign forms, primitive/UBig/IBig/RBig/FBig mixes, dashu_base ring
+//! traits).  Forms are grouped into families (operation, output type); for every operand tuple of
+//! the universe the set of outcomes over all applicable forms of a family must be a singleton.
+//! Hand-written groups: Reduced ring elements, Sign multiplication, sqr/cubic/pow vs operator
+//! chains, Context methods vs FBig operators, clone / clone_from independence.
+
+use crate::core::{guard, Ctx, Rec};
+use crate::fref::*;
+use crate::h::unflatten;
+use crate::uni::*;
+use dashu_base::Sign;
+use dashu_float::round::mode;
+use dashu_float::{Context, FBig, Repr};
+use dashu_int::fast_div::ConstDivisor;
+use dashu_int::{IBig, UBig};
+use dashu_ratio::{RBig, Relaxed};
+use num_bigint::{BigInt, Sign as NSign};
+use num_traits::{One, Signed, ToPrimitive, Zero};
+use std::collections::BTreeMap;
+
+const P: &str = "C15";
+
+/// reference-side description of an operand
+#[derive(Clone, Debug)]
+pub enum Val {
+    Q(Rat),
+    F(BigInt, i64, usize), // significand, exponent, precision (base of the module's `F`)
+}
+impl Val {
+    fn int(&self) -> Option<&BigInt> {
+        match self {
+            Val::Q(r) if r.is_int() => Some(&r.n),
+            _ => None,
+        }
+    }
+    fn show(&self) -> String {
+        match self {
+            Val::Q(r) => r.show(),
+            Val::F(s, e, p) => format!("{}e{}@p{}", s, e, p),
+        }
+    }
+}
+
+/// normalised outcome of a form
+#[derive(Clone, Debug, PartialEq, Eq, PartialOrd, Ord)]
+pub enum Out {
+    Q(String),                // exact rational value n/d
+    F(String, usize),         // float value as exact rational + precision
+    Tup(Vec<Out>),
+    Panic,
+}
+
+pub trait ToOut {
+    fn to_out(&self) -> Out;
+}
+impl ToOut for UBig {
+    fn to_out(&self) -> Out {
+        Out::Q(u_to_ref(self).to_string())
+    }
+}
+impl ToOut for IBig {
+    fn to_out(&self) -> Out {
+        Out::Q(i_to_ref(self).to_string())
+    }
+}
+macro_rules! prim_out {
+    ($($t:ty)*) => {$(
+        impl ToOut for $t { fn to_out(&self) -> Out { Out::Q(self.to_string()) } }
+        impl Mk for $t { fn mk(v: &Val) -> Option<Self> { <$t>::try_from(v.int()?.clone()).ok() } }
+    )*};
+}
+prim_out!(u8 u16 u32 u64 u128 usize i8 i16 i32 i64 i128 isize);
+impl ToOut for RBig {
+    fn to_out(&self) -> Out {
+        // canonical by type: numerator / denominator as stored
+        Out::Q(format!("{}/{}", i_to_ref(self.numerator()), u_to_ref(self.denominator())))
+    }
+}
+impl ToOut for Relaxed {
+    fn to_out(&self) -> Out {
+        // judged by value (the stored spelling is not unique)
+        Out::Q(Rat::new(i_to_ref(self.numerator()), BigInt::from(u_to_ref(self.denominator()))).show() + " (relaxed)")
+    }
+}
+impl<R: dashu_float::round::Round, const B: dashu_int::Word> ToOut for FBig<R, B> {
+    fn to_out(&self) -> Out {
+        if self.repr().is_infinite() {
+            return Out::F(if self.repr().exponent() >= 0 { "+inf".into() } else { "-inf".into() }, self.precision());
+        }
+        Out::F(fval(self.repr()).rat().show(), self.precision())
+    }
+}
+impl<A: ToOut, B2: ToOut> ToOut for (A, B2) {
+    fn to_out(&self) -> Out {
+        Out::Tup(vec![self.0.to_out(), self.1.to_out()])
+    }
+}
+impl<A: ToOut, B2: ToOut, C: ToOut> ToOut for (A, B2, C) {
+    fn to_out(&self) -> Out {
+        // extended gcd: the Bezout coefficients are not unique by specification — compare g only
+        Out::Tup(vec![self.0.to_out()])
+    }
+}
+pub fn out<T: ToOut>(t: T) -> Out {
+    t.to_out()
+}
+
+pub trait Mk: Sized {
+    fn mk(v: &Val) -> Option<Self>;
+}
+impl Mk for UBig {
+    fn mk(v: &Val) -> Option<Self> {
+        let i = v.int()?;
+        if i.sign() == NSign::Minus {
+            return None;
+        }
+        Some(ref_to_u(i.magnitude()))
+    }
+}
+impl Mk for IBig {
+    fn mk(v: &Val) -> Option<Self> {
+        Some(ref_to_i(v.int()?))
+    }
+}
+impl Mk for ConstDivisor {
+    fn mk(v: &Val) -> Option<Self> {
+        let i = v.int()?;
+        if i.sign() != NSign::Plus {
+            return None;
+        }
+        Some(ConstDivisor::new(ref_to_u(i.magnitude())))
+    }
+}
+impl Mk for RBig {
+    fn mk(v: &Val) -> Option<Self> {
+        match v {
+            Val::Q(r) => Some(RBig::from_parts(ref_to_i(&r.n), ref_to_u(r.d.magnitude()))),
+            _ => None,
+        }
+    }
+}
+impl Mk for Relaxed {
+    fn mk(v: &Val) -> Option<Self> {
+        match v {
+            // a non-reduced spelling (3n/3d) so that the relaxed paths are really taken
+            Val::Q(r) => { let (n3, d3): (BigInt, BigInt) = (&r.n * 3, &r.d * 3); Some(Relaxed::from_parts(ref_to_i(&n3), ref_to_u(d3.magnitude()))) }
+            _ => None,
+        }
+    }
+}
+
+pub struct Form {
+    pub fam: &'static str,
+    pub out: &'static str,
+    pub desc: &'static str,
+    pub arity: u8,
+    pub f: fn(&Val, &Val) -> Option<Result<Out, String>>,
+}
+
+/// the generated table, instantiated for one concrete float type
+macro_rules! forms_module {
+    ($name:ident, $r:ty, $b:expr) => {
+        pub mod $name {
+            use super::*;
+            pub type F = FBig<$r, $b>;
+            impl Mk for F {
+                fn mk(v: &Val) -> Option<Self> {
+                    match v {
+                        Val::F(s, e, p) => Some(FBig::from_repr(Repr::<$b>::new(ref_to_i(s), *e as isize), Context::<$r>::new(*p))),
+                        _ => None,
+                    }
+                }
+            }
+            include!("gen_forms.rs");
+        }
+    };
+}
+forms_module!(f10, mode::HalfAway, 10);
+forms_module!(f2, mode::Zero, 2);
+
+#[derive(Clone, Copy, PartialEq, Eq, Debug)]
+enum Kind {
+    Int,
+    Ratio,
+    Float,
+}
+fn kind_of(f: &Form) -> Kind {
+    let d = f.desc;
+    let has = |t: &str| d.split(|c: char| !(c.is_alphanumeric() || c == '_')).any(|w| w == t);
+    if has("F") {
+        Kind::Float
+    } else if has("RBig") || has("Relaxed") {
+        Kind::Ratio
+    } else {
+        Kind::Int
+    }
+}
+
+fn run_family_sweep(ctx: &mut Ctx, name: &str, forms: &[&Form], vals: &[Val], kind: Kind) {
+    // group forms into families
+    let mut fams: BTreeMap<(String, String), Vec<&Form>> = BTreeMap::new();
+    for f in forms {
+        fams.entry((f.fam.to_string(), f.out.to_string())).or_default().push(f);
+    }
+    let fam_list: Vec<(&(String, String), &Vec<&Form>)> = fams.iter().collect();
+    let n = vals.len() as u64;
+    let nf = fam_list.len() as u64;
+    ctx.bound(&format!("{}_forms", name), forms.len() as u64);
+    ctx.bound(&format!("{}_families", name), nf);
+    let (fl, vr) = (&fam_list, vals);
+    ctx.sweep(name, n * n * nf, |i, rec| {
+        let [ia, ib, fi] = unflatten(i, [n, n, nf]);
+        let (a, b) = (&vr[ia], &vr[ib]);
+        let ((fam, outty), fs) = fl[fi];
+        let unary = fs[0].arity == 1;
+        if unary && ib != 0 {
+            return;
+        }
+        if (fam == "shl" || fam == "shr") && b.int().map_or(false, |x| x.abs() > BigInt::from(300)) {
+            rec.hit("pruned:huge-shift");
+            return;
+        }
+        let mut outcomes: Vec<(Out, &Form, Option<String>)> = vec![];
+        for f in fs.iter() {
+            if let Some(r) = (f.f)(a, b) {
+                rec.step();
+                match r {
+                    Ok(o) => outcomes.push((o, f, None)),
+                    Err(p) => outcomes.push((Out::Panic, f, Some(p))),
+                }
+            }
+        }
+        if outcomes.len() < 2 {
+            if outcomes.len() == 1 {
+                rec.hit("single-applicable-form");
+            }
+            return;
+        }
+        rec.nontrivial();
+        // majority outcome
+        let mut count: BTreeMap<&Out, usize> = BTreeMap::new();
+        for (o, _, _) in &outcomes {
+            *count.entry(o).or_insert(0) += 1;
+        }
+        if count.len() > 1 {
+            let major = count.iter().max_by_key(|(_, c)| **c).map(|(o, _)| (*o).clone()).unwrap();
+            for (o, f, p) in &outcomes {
+                if *o != major {
+                    let okind = if *o == Out::Panic { "panics-alone" } else if major == Out::Panic { "returns-while-others-panic" } else { "differs" };
+                    rec.fail(
+                        format!("{}|{}:{}|{}|{}", P, fam, outty, okind, f.desc),
+                        format!("{} on ({}, {})", f.desc, a.show(), if unary { "-".into() } else { b.show() }),
+                        match p {
+                            Some(m) => format!("panic: {}", m),
+                            None => format!("{:?}", o),
+                        },
+                        format!("{:?} (given by {} of {} forms of the family)", major, count[&major], outcomes.len()),
+                    );
+                }
+            }
+        } else if outcomes[0].0 == Out::Panic {
+            rec.hit("all-forms-panic");
+        } else {
+            rec.hit("all-forms-agree");
+        }
+        let _ = kind;
+        rec.sample(|| format!("{} forms of {}:{} on ({}, {})", outcomes.len(), fam, outty, a.show(), b.show()));
+    });
+    ctx.require_classes(name, &["all-forms-agree", "all-forms-panic"]);
+}
 
 pub fn run(ctx: &mut Ctx) {
-    ctx.machinery("check C15 is not built yet");
+    ctx.rule = "the form table is generated from the rustdoc JSON of the tree (every impl of an operator / dashu_base ops trait on UBig, IBig, RBig, Relaxed, FBig and primitives: owned/borrowed operands, assign forms, mixed types); forms are grouped into families (operation, output type) and for EVERY ordered operand pair of the universe (integers: all <=2-word I3 values + representative 3-word values + small shift counts; rationals: Q(6,6) + integers; floats: F(10,2,3) / F(2,3,4) x 3 precisions) all applicable forms of a family must return the same normalised value, or all panic. non-trivial = at least two forms applicable".into();
+    ctx.assume("two forms 'agree' when their results are equal as exact values (floats: value and precision; Relaxed: value); for extended gcd only g is compared (Bezout coefficients are not unique by specification)");
+    let all10 = f10::forms();
+    let all2 = f2::forms();
+    ctx.bound("generated_forms", all10.len() as u64);
+    ctx.bound("impls_not_generated(hand-written groups or outside the number types)", f10::UNCOVERED.len() as u64);
+    let unexpected: Vec<&&str> = f10::UNCOVERED.iter().filter(|u| !u.contains("[hand-written group]") && !u.contains("Rounding") && !u.contains("crate::repr::Repr")).collect();
+    if !unexpected.is_empty() {
+        ctx.machinery(format!("form generator could not classify {} impls: {:?}", unexpected.len(), unexpected));
+    }
+
+    // integer universe
+    let mut ints: Vec<BigInt> = signed(&closed_mags(&A9, 2));
+    for v in [3i64, 5, 7, 10, 63, 64, 65, 100, 127, 128, 129, 200, 255, 256, -3, -64, -200] {
+        ints.push(BigInt::from(v));
+    }
+    let i3 = signed(&i3_mags());
+    let step = ctx.pick(37, 7);
+    for (k, v) in i3.iter().enumerate() {
+        if word_len(v.magnitude()) == 3 && k % step == 0 {
+            ints.push(v.clone());
+        }
+    }
+    ints.sort();
+    ints.dedup();
+    let int_vals: Vec<Val> = ints.iter().map(|v| Val::Q(Rat::int(v.clone()))).collect();
+    ctx.bound("int_values", int_vals.len() as u64);
+    let int_forms: Vec<&Form> = all10.iter().filter(|f| kind_of(f) == Kind::Int).collect();
+    run_family_sweep(ctx, "int.forms", &int_forms, &int_vals, Kind::Int);
+
+    // rationals
+    let qn: i64 = ctx.pick(6, 9);
+    let mut qvals: Vec<Val> = vec![];
+    for d in 1..=qn {
+        for n in -qn..=qn {
+            if num_integer::Integer::gcd(&n, &d) == 1 {
+                qvals.push(Val::Q(Rat::new(BigInt::from(n), BigInt::from(d))));
+            }
+        }
+    }
+    for v in [BigInt::from(u64::MAX), -(BigInt::one() << 64u32), (BigInt::one() << 128u32) + 1] {
+        qvals.push(Val::Q(Rat::int(v.clone())));
+        qvals.push(Val::Q(Rat::new(v, BigInt::from(7))));
+    }
+    let ratio_forms: Vec<&Form> = all10.iter().filter(|f| kind_of(f) == Kind::Ratio).collect();
+    run_family_sweep(ctx, "ratio.forms", &ratio_forms, &qvals, Kind::Ratio);
+
+    // floats: operands are floats of the module's base with 3 precisions, plus integers
+    fn fvals(base: u32, p: u32, e: i64, precs: &[usize]) -> Vec<Val> {
+        let mut v = vec![];
+        for (s, ex) in f_universe(base, p, e) {
+            let d = digits_b(&s, base);
+            for (k, &pr) in precs.iter().enumerate() {
+                // full universe at the middle precision, one-digit significands at the others
+                if (pr == 0 || d <= pr) && (k == 1 || d <= 1) {
+                    v.push(Val::F(s.clone(), ex, pr));
+                }
+            }
+        }
+        for k in [0i64, 1, -1, 2, 7, -12, 100, 255] {
+            v.push(Val::Q(Rat::from_i(k)));
+        }
+        v
+    }
+    let float_forms10: Vec<&Form> = all10.iter().filter(|f| kind_of(f) == Kind::Float).collect();
+    let fv10 = fvals(10, 2, ctx.pick(1, 2), &[0, 2, 5]);
+    run_family_sweep(ctx, "float.forms.B10.HalfAway", &float_forms10, &fv10, Kind::Float);
+    let float_forms2: Vec<&Form> = all2.iter().filter(|f| kind_of(f) == Kind::Float).collect();
+    let fv2 = fvals(2, 3, ctx.pick(3, 5), &[0, 3, 8]);
+    run_family_sweep(ctx, "float.forms.B2.Zero", &float_forms2, &fv2, Kind::Float);
+
+    hand_written(ctx, &ints);
+}
+
+fn hand_written(ctx: &mut Ctx, ints: &[BigInt]) {
+    // Reduced ring elements: every ownership form of + - * / and neg, Sign multiplication,
+    // methods vs operator chains, clone / clone_from independence
+    let moduli: Vec<BigInt> = vec![BigInt::from(1), BigInt::from(7), BigInt::from(1u64 << 63), BigInt::from(u64::MAX), (BigInt::one() << 64u32) + 13, BigInt::from(shape(3, "lcgA", 0)) | BigInt::one()];
+    let small: Vec<&BigInt> = ints.iter().filter(|v| word_len(v.magnitude()) <= 2).collect();
+    let (nm, ns) = (moduli.len() as u64, small.len() as u64);
+    let (mr, sr) = (&moduli, &small);
+    ctx.sweep("reduced.forms", nm * ns * ns, |i, rec| {
+        let [mi, ia, ib] = unflatten(i, [nm, ns, ns]);
+        let ring = ConstDivisor::new(ref_to_u(mr[mi].magnitude()));
+        let (a, b) = (ring.reduce(ref_to_i(sr[ia])), ring.reduce(ref_to_i(sr[ib])));
+        let case = || format!("mod {}: ({}, {})", mr[mi], sr[ia], sr[ib]);
+        macro_rules! fam {
+            ($name:expr, $op:tt, $opa:tt) => {{
+                let rs: Vec<(&str, Result<UBig, String>)> = vec![
+                    ("val,val", guard(|| (a.clone() $op b.clone()).residue())),
+                    ("ref,ref", guard(|| (&a $op &b).residue())),
+                    ("val,ref", guard(|| (a.clone() $op &b).residue())),
+                    ("ref,val", guard(|| (&a $op b.clone()).residue())),
+                    ("assign val", guard(|| { let mut t = a.clone(); t $opa b.clone(); t.residue() })),
+                    ("assign ref", guard(|| { let mut t = a.clone(); t $opa &b; t.residue() })),
+                ];
+                rec.steps(rs.len() as u64);
+                let first = rs[0].1.clone().ok();
+                for (form, r) in &rs {
+                    if r.clone().ok() != first {
+                        rec.fail(format!("{}|Reduced::{}|forms-disagree|{}", P, $name, form), case(), format!("{:?}", r), format!("{:?}", rs[0].1));
+                    }
+                }
+                if first.is_none() { rec.hit("all-forms-panic"); } else { rec.hit("all-forms-agree"); }
+            }};
+        }
+        fam!("add", +, +=);
+        fam!("sub", -, -=);
+        fam!("mul", *, *=);
+        fam!("div", /, /=);
+        rec.step();
+        if guard(|| (-a.clone()).residue()).ok() != guard(|| (-&a).residue()).ok() {
+            rec.fail(format!("{}|Reduced::neg|forms-disagree|ref", P), case(), "-&a differs from -a", "equal");
+        }
+        rec.nontrivial();
+        rec.sample(case);
+    });
+    ctx.require_classes("reduced.forms", &["all-forms-agree", "all-forms-panic"]);
+
+    let n = ints.len() as u64;
+    let ir = ints;
+    ctx.sweep("methods.vs.operators+clone", n * n, |i, rec| {
+        let (ra, rb) = (&ir[(i / n) as usize], &ir[(i % n) as usize]);
+        let (a, b) = (ref_to_i(ra), ref_to_i(rb));
+        let case = || format!("({}, {})", hex(ra), hex(rb));
+        if i % n == 0 {
+            // unary groups, once per a
+            let sq = guard(|| IBig::from(a.sqr()));
+            let groups: Vec<(&str, Result<IBig, String>, Result<IBig, String>)> = vec![
+                ("IBig::sqr vs a*a", sq.clone(), guard(|| &a * &a)),
+                ("IBig::pow(2) vs a*a", guard(|| a.pow(2)), guard(|| &a * &a)),
+                ("IBig::cubic vs a*a*a", guard(|| a.cubic()), guard(|| &a * &a * &a)),
+                ("IBig::pow(3) vs a*a*a", guard(|| a.pow(3)), guard(|| &a * &a * &a)),
+                ("IBig*Sign::Negative vs -a", guard(|| a.clone() * Sign::Negative), guard(|| -a.clone())),
+                ("Sign::Negative*IBig vs -a", guard(|| Sign::Negative * a.clone()), guard(|| -&a)),
+                ("IBig*=Sign::Negative vs -a", guard(|| { let mut t = a.clone(); t *= Sign::Negative; t }), guard(|| -&a)),
+                ("IBig*Sign::Positive vs a", guard(|| a.clone() * Sign::Positive), Ok(a.clone())),
+            ];
+            rec.steps(groups.len() as u64);
+            for (g, x, y) in groups {
+                if x.clone().ok().map(|v| i_to_ref(&v)) != y.clone().ok().map(|v| i_to_ref(&v)) {
+                    rec.fail(format!("{}|{}|forms-disagree|int", P, g), case(), format!("{:?}", x.map(|v| hex(&i_to_ref(&v)))), format!("{:?}", y.map(|v| hex(&i_to_ref(&v)))));
+                }
+            }
+            if ra.sign() != NSign::Minus {
+                let u = ref_to_u(ra.magnitude());
+                rec.steps(3);
+                if guard(|| u.sqr()).ok() != guard(|| &u * &u).ok() || guard(|| u.cubic()).ok() != guard(|| &u * &u * &u).ok() || guard(|| u.clone() * Sign::Negative).ok() != guard(|| -IBig::from(u.clone())).ok() {
+                    rec.fail(format!("{}|UBig::sqr/cubic/Sign vs operators|forms-disagree|int", P), case(), "method differs from the operator chain", "equal");
+                }
+            }
+        }
+        // clone_from of a onto a value holding b: equal to a, independent of a
+        rec.steps(2);
+        let r = guard(|| {
+            let src = a.clone();
+            let mut t = b.clone();
+            t.clone_from(&src);
+            let eq1 = t == src && i_to_ref(&t) == *ra;
+            // pointer ranges disjoint for heap values
+            let (pt, ps) = (t.as_sign_words().1.as_ptr() as usize, src.as_sign_words().1.as_ptr() as usize);
+            let len = src.as_sign_words().1.len() * std::mem::size_of::<dashu_int::Word>();
+            let disjoint = len == 0 || pt + len <= ps || ps + len <= pt;
+            t += IBig::ONE;
+            t <<= 70usize;
+            let unchanged = i_to_ref(&src) == *ra;
+            let c = src.clone();
+            let eq2 = c == src;
+            drop(src);
+            let still = i_to_ref(&c) == *ra;
+            (eq1, disjoint, unchanged, eq2, still)
+        });
+        match r {
+            Ok((true, true, true, true, true)) => rec.hit("clone-independent"),
+            Ok(x) => rec.fail(format!("{}|IBig::clone_from/clone|not-equal-or-not-independent|int", P), case(), format!("(equal, disjoint, source-unchanged, clone-equal, clone-survives-drop) = {:?}", x), "all true"),
+            Err(p) => rec.fail(format!("{}|IBig::clone_from/clone|panic|int", P), case(), p, "no panic"),
+        }
+        if !ra.is_zero() && !rb.is_zero() {
+            rec.nontrivial();
+        }
+        rec.sample(case);
+    });
+    let _ = (BigInt::zero().to_i64(), RBig::ZERO);
 }
